@@ -178,3 +178,96 @@ def velocities(h, r, n, lo=None, hi=0.99):
         pts.append(r.uniform(lo * 1.01 + 1e-3, hi))
     pts = sorted(set(pts))
     return sorted(r.sample(pts, n)) if n < len(pts) else pts
+
+
+# ---------------------------------------------------------------- findMatching decision logic (Model.Matching)
+
+def scripted_find_matching(params):
+    """Runs the REAL Hydrodynamics.findMatching on an object whose physics and numerical tools are closed-form stubs
+    (installed from outside).  Returns the line-protocol string Driver/MatchingF.lean prints for the same parameters."""
+    from types import SimpleNamespace
+    import WallGo.hydrodynamics as H
+    vw, vJ, vJt, vLow, Tn, t0, t1, s0, s1, s2, s3, c0, c1, frS, frD, fm = params
+    h = H.Hydrodynamics.__new__(H.Hydrodynamics)
+    h.vJ, h.vBracketLow, h.Tnucl, h.atol, h.rtol, h.vMin = vJ, vLow, Tn, 1e-10, 1e-6, vLow
+    h.TMaxHydro, h.TMinHydro = 10.0 * Tn, 0.01 * Tn
+
+    def tp(vp):
+        return t0 + t1 * vp
+    # csqLowT is a DIFFERENT function: using it where csqHighT belongs shows up
+    h.thermodynamics = SimpleNamespace(csqHighT=lambda T: c0 + c1 * T, csqLowT=lambda T: 0.9 * c0 - 0.5 * c1 * T)
+    h.matchDeflagOrHyb = lambda vw_, vp=None: (vp, "vm", tp(vp), "Tm")
+    h.solveHydroShock = lambda vw_, vp, Tp: Tn + s0 + s1 * vp + s2 * (vp * vp) + s3 * (Tp - tp(vp))
+    h.matchDeton = lambda vw_: ("deton", None, None, None)
+    h.template = SimpleNamespace(vJ=vJt, findMatching=lambda v: ("template", v, None, None))
+
+    def D(vp):
+        return h.solveHydroShock(vw, vp, tp(vp)) - Tn
+
+    def S(vp):
+        return vp - (c0 + c1 * tp(vp)) / vw
+    events = []
+
+    def root_scalar(f, bracket=None, **kw):
+        a, b = bracket
+        probe = 0.5 * (a + b) + 0.0123
+        kind = "rootD" if f(probe) == D(probe) else ("rootS" if f(probe) == S(probe) else "rootUNKNOWN")
+        events.append(f"{kind}:{C.f2b(a)}:{C.f2b(b)}")
+        return SimpleNamespace(root=a + (frD if kind == "rootD" else frS) * (b - a), converged=True)
+
+    def minimize_scalar(f, bounds=None, **kw):
+        a, b = bounds
+        x = a + fm * (b - a)
+        val = float(f(x))
+        d = D(x)
+        sigma = 0.0 if d == 0 else val / d
+        events.append(f"min:{C.f2b(sigma)}:{C.f2b(a)}:{C.f2b(b)}")
+        return SimpleNamespace(x=x, fun=val, success=True)
+    saved = (H.root_scalar, H.minimize_scalar)
+    H.root_scalar, H.minimize_scalar = root_scalar, minimize_scalar
+    try:
+        out = H.Hydrodynamics.findMatching(h, vw)
+    finally:
+        H.root_scalar, H.minimize_scalar = saved
+    if out[0] == "deton":
+        head = "detonation -"
+    elif out[0] == "template":
+        head = f"template {C.f2b(out[1])}"
+    else:
+        head = f"root {C.f2b(out[0])}"
+    return head + " | " + " ".join(events)
+
+
+def matching_params(r):
+    vw = r.uniform(0.15, 0.95)
+    vJ = vw + r.choice((-0.05, 0.02, 0.1, 0.3)) * r.uniform(0.2, 1.0)
+    vJt = vJ + r.uniform(-0.02, 0.02)
+    vLow = 10 ** r.uniform(-6, -2)
+    Tn = 10 ** r.uniform(-1, 2)
+    t0, t1 = Tn * r.uniform(1.0, 1.3), Tn * r.uniform(-0.3, 0.3)
+    # D(vp) = s0 + s1 vp + s2 vp^2 : choose roots inside / outside (0, vw) to reach every branch
+    kind = r.choice(("root-inside", "no-root", "double-root", "beyond-vpmax0"))
+    if kind == "root-inside":
+        rt = r.uniform(0.05, 0.9) * vw * 0.5
+        s2 = 0.0
+        s1 = Tn * r.uniform(0.2, 2) * r.choice((-1, 1))
+        s0 = -s1 * rt
+    elif kind == "no-root":
+        s2 = 0.0
+        s1 = Tn * r.uniform(0.2, 2) * r.choice((-1, 1))
+        s0 = -s1 * (-r.uniform(0.1, 1))            # root at negative vp
+    elif kind == "double-root":
+        a, b = sorted((r.uniform(0.02, 0.5) * vw, r.uniform(0.02, 0.5) * vw))
+        k = Tn * r.uniform(0.5, 3) * r.choice((-1, 1))
+        s2, s1, s0 = k, -k * (a + b), k * a * b
+    else:
+        rt = vw * r.uniform(0.6, 0.98)
+        s2 = 0.0
+        s1 = Tn * r.uniform(0.2, 2) * r.choice((-1, 1))
+        s0 = -s1 * rt
+    s3 = r.uniform(-1, 1)
+    # csqHigh(T) = c0 + c1 T around 1/3, rising or falling with T
+    c1 = r.uniform(-0.15, 0.25) / Tn
+    c0 = r.uniform(0.2, 0.4) - c1 * Tn
+    frS, frD, fm = r.uniform(0.05, 0.95), r.uniform(0.05, 0.95), r.uniform(0.05, 0.95)
+    return kind, [vw, vJ, vJt, vLow, Tn, t0, t1, s0, s1, s2, s3, c0, c1, frS, frD, fm]
